@@ -25,7 +25,9 @@ theorem code_deg_normalize (a : K) :
   exact ⟨Angle.normalize degFull a, fun hh => Trace.C13.t_deg_normalize_pos a hh, fun hh => Trace.C13.t_deg_normalize_neg a hh,
     fun hh => Trace.C13.t_deg_normalize_zero a hh, by simpa [C13.degFull_eq] using h⟩
 
-/-- `normalize_signed(a)` as computed lies in `(-half turn, half turn]` and differs from `a` by a whole number of turns -/
+/-- `normalize_signed(a)` as computed lies in `(-half turn, half turn]` and differs from `a` by a whole number of turns -- here
+only for inputs with a positive remainder (hypothesis `h : 0 < a % 360`; the two kernels are the `hi` / `lo` paths of that
+case, the half-turn tie has no kernel here).  Every `a`, every path: `code_deg_normalize_signed_total`, `E2E/C13d.lean` -/
 theorem code_deg_normalize_signed (a : K) (h : 0 < FRem.frem a (360 : K)) :
     ∃ r : K, ((360 : K) / 2 < FRem.frem a 360 → t_deg_normalize_signed_hi (envL [a]) =
         .okG [r] [.cmp (FRem.frem a 360) 0 .gt, .cmp (360 / 2) (FRem.frem a 360) .lt]) ∧
